@@ -250,15 +250,14 @@ func (b *c07Built) input() map[string]any {
 
 // checkStamps decodes a package and checks every stored timestamp against the allowed set.
 // c07UnsetAllowed: where an unset time is what the format's writer always stores, whatever the configuration says:
-// gzip headers (compress/gzip is given no ModTime: 0; pgzip/klauspost write their own constant), the cpio headers of
-// rpmpack, and the .PKGINFO member of the apk control segment (apk.createBuilderControl sets no ModTime).
+// gzip headers (compress/gzip is given no ModTime: 0; pgzip/klauspost write their own constant) and the cpio headers of
+// rpmpack (the format's times live in the rpm header).  The .PKGINFO member of the apk control segment used to be on
+// this list; it is an archive member header like any other and carries the package mtime since fix in /repo.
 func c07UnsetAllowed(format string, s stamp, kind string) bool {
 	switch {
 	case s.Class == "gzip-header":
 		return true
 	case format == "rpm" && s.Class == "cpio-member":
-		return kind == "zero"
-	case format == "apk" && s.Class == "tar-member" && strings.HasSuffix(s.Where, ":.PKGINFO"):
 		return kind == "zero"
 	case format == "rpm" && s.Class == "rpm-changelogtime":
 		// the date a changelog entry states is an input; an entry without a date states Go's zero time, which the
